@@ -85,9 +85,9 @@ func RaceMain() {
 	bridgeFunc := flag.Bool("bridge-func", true, "probe results of reflected Go functions in copies")
 	bridgeSlice := flag.Bool("bridge-slice", true, "probe the length of the bridged Go slice in copies")
 	flag.Parse()
-	opt := Options{NoBridgeFunc: !*bridgeFunc, NoBridgeSlice: !*bridgeSlice}
+	opt := Options{NoBridgeFunc: !*bridgeFunc, NoBridgeSlice: !*bridgeSlice, BusyTemplate: true}
 	if *rounds == 0 {
-		*rounds = 2
+		*rounds = 1 // quick: the cold round only (the supervisor starts the binary twice)
 		if *tier == "thorough" {
 			*rounds = 3
 		}
@@ -132,6 +132,14 @@ func RaceMain() {
 							defer tw.Done()
 							<-start
 							c.Threads[i]()
+						}()
+					}
+					if tt := c.TemplateThread(); tt != nil {
+						tw.Add(1)
+						go func() {
+							defer tw.Done()
+							<-start
+							tt()
 						}()
 					}
 					close(start)
